@@ -65,12 +65,20 @@ def header_of(spec, width, height):
         h["NAXIS"] = 2
         h["NAXIS1"] = width if not nax else int(nax[0])
         h["NAXIS2"] = height if not nax else int(nax[1])
-    h["CTYPE1"] = "RA---" + spec["proj"]
-    h["CTYPE2"] = "DEC--" + spec["proj"]
+    if spec.get("latfirst"):
+        # the latitude axis listed first (legal FITS; some radio / survey products): world axis i is row i of the matrix
+        h["CTYPE1"] = "DEC--" + spec["proj"]
+        h["CTYPE2"] = "RA---" + spec["proj"]
+        h["CRVAL1"] = spec["dec"]
+        h["CRVAL2"] = spec["ra"]
+        cd = cd[[1, 0], :]
+    else:
+        h["CTYPE1"] = "RA---" + spec["proj"]
+        h["CTYPE2"] = "DEC--" + spec["proj"]
+        h["CRVAL1"] = spec["ra"]
+        h["CRVAL2"] = spec["dec"]
     h["CUNIT1"] = "deg"
     h["CUNIT2"] = "deg"
-    h["CRVAL1"] = spec["ra"]
-    h["CRVAL2"] = spec["dec"]
     mode = spec["crpix_mode"]
     if mode == "inside":
         cx = 1 + spec["crpix_u"] * (width - 1)
